@@ -418,3 +418,35 @@ Proof.
   rewrite (Huniq _ Hn') in Hbp'. apply by_position_get in Hbp' as (Hri & k & Hk).
   exact (Hval _ _ Hk Hri).
 Qed.
+
+(* ---------- reuse of cached metadata ---------- *)
+(* metadata marked safe for the compiled cache by the positional merge does not depend on what the cursor
+   calls its columns: any later cursor description of the same length yields the same metadata *)
+Theorem safe_for_cache_positional_sound : forall rcs f desc desc' tr,
+  rcs <> [] -> f_ordered f = true -> f_textual_ordered f = false ->
+  length desc = length rcs -> length desc' = length rcs ->
+  build rcs f desc tr = build rcs f desc' tr /\ safe_for_cache rcs f desc = true.
+Proof.
+  intros rcs f desc desc' tr Hne Ho Ht Hl Hl'.
+  assert (Hn : Nat.eqb (length rcs) 0 = false).
+  { apply Nat.eqb_neq. intro H0. apply length_zero_iff_nil in H0. contradiction. }
+  unfold build, merge, safe_for_cache. rewrite Hn, Ho, Ht, Hl, Hl', Nat.eqb_refl. cbn [negb andb]. split; reflexivity.
+Qed.
+
+(* name matching depends on the cursor's column order, and is never marked safe *)
+Theorem name_matching_never_safe : forall rcs f desc,
+  f_textual_ordered f = false -> f_adhoc f = false ->
+  (f_ordered f = false \/ length desc <> length rcs) -> safe_for_cache rcs f desc = false.
+Proof.
+  intros rcs f desc Ht Ha H. unfold safe_for_cache. rewrite Ht, Ha. cbn [orb andb negb].
+  destruct H as [H|H]; [rewrite H; now rewrite andb_false_r|].
+  replace (Nat.eqb (length rcs) (length desc)) with false by (symmetry; apply Nat.eqb_neq; congruence).
+  now rewrite !andb_false_r.
+Qed.
+
+Example name_matching_order_matters :
+  let rcs := [ {| rc_keyname := w_q; rc_name := w_q; rc_objs := [KO 1; w_q] |};
+               {| rc_keyname := w_z; rc_name := w_z; rc_objs := [KO 2; w_z] |} ] in
+  lookup (keymap_of (raw_byname rcs true [(w_q, KN); (w_z, KN)]) 2 true) (KO 1) = Ok 0 /\
+  lookup (keymap_of (raw_byname rcs true [(w_z, KN); (w_q, KN)]) 2 true) (KO 1) = Ok 1.
+Proof. vm_compute. split; reflexivity. Qed.
